@@ -79,6 +79,22 @@ template <class E> struct Impl {
         case MIN_SE: return ad::min(s, a);
         case MAX_ES: return ad::max(a, s);
         case MAX_SE: return ad::max(s, a);
+        // aliasing forms: `a` is the sub-tree result held in a variable; both operands are that one object
+        case ADDEQ_SELF: { E r(a); r += r; return r; }
+        case SUBEQ_SELF: { E r(a); r -= r; return r; }
+        case MULEQ_SELF: { E r(a); r *= r; return r; }
+        case DIVEQ_SELF: { E r(a); r /= r; return r; }
+        case ADD_SELF: return a + a;
+        case SUB_SELF: return a - a;
+        case MUL_SELF: return a * a;
+        case DIV_SELF: return a / a;
+        case POW_SELF: return ad::pow(a, a);
+        case ATAN2_SELF: return ad::atan2(a, a);
+        // value() returns a const reference: the scalar rhs lives in r's own value slot
+        case ADDEQ_OWNV: { E r(a); r += r.value(); return r; }
+        case SUBEQ_OWNV: { E r(a); r -= r.value(); return r; }
+        case MULEQ_OWNV: { E r(a); r *= r.value(); return r; }
+        case DIVEQ_OWNV: { E r(a); r /= r.value(); return r; }
         }
         throw std::logic_error("apply_1: bad kind");
     }
